@@ -200,6 +200,8 @@ def gaps(rep, prog, rule):
             if any("map_with_gaps" in c.name for c in oc):
                 rep.bad(rule, "%s|otherwise" % name.rsplit("::", 1)[-1], f.term(b)[5],
                         "pixel types without alpha use map_with_gaps")
+    if n == 0:
+        n = _gaps_by_pixel_type(rep, prog, rule)
     rep.floor(rule, "component-count arms", n, 4)
     for name in ("color::MappingTable::<Out, SIZE>::map_with_gaps",
                  "color::MappingTable::<Out, SIZE>::map_with_gaps_inplace"):
@@ -233,6 +235,66 @@ def gaps(rep, prog, rule):
                         "!= 0: colour components bypass the table and alpha goes through it")
         else:
             rep.bad(rule, key, f.loc, "%d into_component calls in %s" % (len(conv), name))
+
+
+ALPHA_STEP = {"U8x2": 2, "U8x4": 4, "U16x2": 2, "U16x4": 4}
+NO_ALPHA = ("U8", "U8x3", "U16", "U16x3")
+
+
+def _gaps_by_pixel_type(rep, prog, rule):
+    """the gap step is chosen by a switch on the pixel type (in a helper returning Option<usize>
+    or directly): every 8/16-bit pixel type with alpha needs an arm with its component count,
+    no type without alpha may get one"""
+    from ..engines.alpha_rules import switch_variants
+    from ..engines.tables import enum_variants
+    variants = enum_variants(prog, "pixels::PixelType")
+    n = 0
+    for f in sorted(prog.fns.values(), key=lambda x: x.id):
+        if not f.file.endswith("src/color/mod.rs") or f.kind == "closure":
+            continue
+        vs, b = switch_variants(f, variants or {})
+        if vs is None:
+            continue
+        rep.touch(f)
+        sym = Sym(f)
+        sw = Switch(f, b)
+        by_variant = {}
+        for v, tgt in sw.arms:
+            name = (variants or {}).get(v, "?%s" % v)
+            step = None
+            for bb in sw.arm_blocks(tgt) | {tgt}:
+                for st in f.blocks[bb]["s"]:
+                    if st[0] == "a" and st[2][0] == "agg" and st[2][1] == "adt" and \
+                            st[2][2].endswith("option::Option") and st[2][4]:
+                        e = sym.operand(st[2][4][0], (bb, 0))
+                        if e[0] == "const":
+                            step = e[1]
+                for c in f.calls():
+                    if c.bb == bb and "map_with_gaps" in c.name:
+                        e = sym.operand(c.args[-1], (c.bb, "term"))
+                        if e[0] == "const":
+                            step = e[1]
+            by_variant[name] = step
+        if not any(s is not None for s in by_variant.values()):
+            continue            # a dispatcher over pixel types that does not choose a gap step
+        for name, want in sorted(ALPHA_STEP.items()):
+            n += 1
+            key = "%s|%s" % (f.name.rsplit("::", 1)[-1], name)
+            got = by_variant.get(name)
+            if got == want:
+                rep.ok(rule, key, f.loc, "gap step %d for %s" % (want, name))
+            elif name not in by_variant:
+                rep.bad(rule, key, f.loc, "%s chooses the gap step by pixel type and has no arm for "
+                        "%s: its alpha channel goes through the colour table instead of being only "
+                        "depth-converted" % (f.name, name))
+            else:
+                rep.bad(rule, key, f.loc, "%s gives %s the gap step %s (its pixels have %d "
+                        "components)" % (f.name, name, got, want))
+        for name in NO_ALPHA:
+            if by_variant.get(name) is not None:
+                rep.bad(rule, "%s|%s" % (f.name.rsplit("::", 1)[-1], name), f.loc,
+                        "%s has no alpha channel but gets a gap step" % name)
+    return n
 
 
 def reject(rep, prog, rule):
